@@ -27,7 +27,7 @@ abbrev Key := Nat
 abbrev ObjId := Nat
 
 inductive Mode | r | w
-deriving DecidableEq, Repr
+deriving DecidableEq, Repr, Hashable
 
 /-- the condition under which `tryFree` deletes the map entry -/
 inductive FreeGuard
@@ -89,7 +89,7 @@ structure Wrap where
   wc : Int
   regR : List Tid
   regW : List Tid
-deriving DecidableEq, Repr
+deriving DecidableEq, Repr, Hashable
 
 def Wrap.empty : Wrap := ⟨none, none, [], 0, [], [], 0, 0, [], []⟩
 
@@ -101,13 +101,13 @@ inductive Phase
   | acq (m : Mode) (all : List Key) (todo : List (Key × ObjId))
   /-- inside Unlocks/RUnlocks -/
   | rel (m : Mode) (groups : List (List Key))
-deriving DecidableEq, Repr
+deriving DecidableEq, Repr, Hashable
 
 structure Thread where
   phase : Phase
   /-- ghost: what the thread holds (key, object it locked for that key, mode) -/
   held : List (Key × ObjId × Mode)
-deriving DecidableEq, Repr
+deriving DecidableEq, Repr, Hashable
 
 def Thread.init : Thread := ⟨.idle, []⟩
 
